@@ -214,7 +214,7 @@ def shrink(sub, case):
 IDENTS = ["x", "y", "local_y", "self.global_state_y", "dagrt_state%dagrt_refcnt_p_last_rhs_y", "i", "tmp_0",
           "lploc_temp", "self._functions.func_f", "n", "result"]
 OPS = ["+", "-", "*", "/", "=", "==", "<=", "**", ".and.", ".ne.", "=>", "::", ","]
-WORDS = ["alpha", "beta", "failed", "to", "allocate", "x", "a", "0", "state", "C:\\dir\\", "\\"]
+WORDS = ["alpha", "beta", "failed", "to", "allocate", "x", "a", "0", "state", "C:\\dir\\", "\\", "it's", '3"', "don't", '"q"']
 
 
 def string_literals(glue_ok=True):
@@ -223,7 +223,8 @@ def string_literals(glue_ok=True):
         lambda ws: st.lists(st.sampled_from([" ", " ", "  ", "   "]), min_size=max(len(ws) - 1, 0),
                             max_size=max(len(ws) - 1, 0)).map(
             lambda seps: "".join(w + (seps[i] if i < len(seps) else "") for i, w in enumerate(ws))))
-    return st.tuples(q, inner).map(lambda t: t[0] + t[1] + t[0])
+    # words may contain the *other* quote character (an odd number of them): "it's", '3" pipe'
+    return st.tuples(q, inner).map(lambda t: t[0] + t[1].replace(t[0], "") + t[0])
 
 
 def token_strategy(glued_strings):
